@@ -14,7 +14,7 @@ def gen_atomic_op(rng, nobj):
     return "a%d.%s.%d" % (a, k, v)
 
 
-ALL = ("spawn", "join", "yield", "park", "atomic", "rand", "reset", "panic", "sem", "mutex", "rwlock", "condvar", "chan", "barrier", "once")
+ALL = ("spawn", "join", "yield", "park", "atomic", "rand", "reset", "panic", "sem", "mutex", "rwlock", "condvar", "chan", "barrier", "once", "async")
 BASIC = ("spawn", "join", "yield", "park", "atomic", "rand", "reset", "panic", "sem", "mutex", "rwlock")
 
 
@@ -72,6 +72,8 @@ def gen_program(rng, max_bodies=4, max_ops=6, wild=False, features=("spawn", "jo
         n = rng.randint(0, max_ops)
         dropped_tx = set()
         dropped_rx = set()
+        ah = 0
+        ah_dead = set()
         for _ in range(n):
             r = rng.random()
             if b == closure_body:
@@ -94,6 +96,37 @@ def gen_program(rng, max_bodies=4, max_ops=6, wild=False, features=("spawn", "jo
                     ops.append("ut0")
                 else:
                     ops.append("ic%d" % rng.choice(onces))
+                continue
+            if "async" in features and b != closure_body and rng.random() < 0.22:
+                live = [h for h in range(ah) if h not in ah_dead]
+                k = rng.random()
+                cands = [j for j in range(b + 1, nb) if j != closure_body and (not chans or j not in spawned)]
+                if k < 0.3 and cands:
+                    j = rng.choice(cands)
+                    spawned.add(j)
+                    ops.append("as%d" % j)
+                    ah += 1
+                elif k < 0.5 and live:
+                    h = rng.choice(live)
+                    ah_dead.add(h)
+                    ops.append("aw%d" % h)
+                elif k < 0.6 and live:
+                    ops.append("ab%d" % rng.choice(live))
+                elif k < 0.67 and live:
+                    h = rng.choice(live)
+                    ah_dead.add(h)
+                    ops.append("dh%d" % h)
+                elif k < 0.72 and live:
+                    ops.append("if%d" % rng.choice(live))
+                elif k < 0.8 and cands and not held and not maybe:
+                    # the block_on body runs in this task: only when no guard is (possibly) held, so that it cannot re-lock
+                    j = rng.choice(cands)
+                    spawned.add(j)
+                    ops.append("bo%d" % j)
+                elif wild and k < 0.85:
+                    ops.append("aw%d" % rng.randrange(0, 3))
+                else:
+                    ops.append("ay")
                 continue
             if rng.random() < new_w:
                 kinds = (["cv"] * 2 if condvars else []) + (["chan"] * 3 if chans and b != closure_body else []) + (["bar"] if barriers else []) + (["once"] if onces and b != closure_body else [])
